@@ -69,7 +69,7 @@ func (r *Real64) MAX(a, b *Real64) Scalar {
 }
 /* -------------------------------------------------------------------------- */
 func (c *Real64) ABS(a *Real64) Scalar {
-  if c.Sign() == -1 {
+  if a.Sign() == -1 {
     c.NEG(a)
   } else {
     c.SET(a)
